@@ -51,8 +51,10 @@ Scan(p, i, c, g, mx, strict, fuel) ==
 
 PickResult(p, i, c, strict) ==
   IF Len(p) = 0 THEN [err |-> "empty", idx |-> i, cw |-> c]
-  ELSE LET mx == MaxWeight(p) IN
-       Scan(p, i, c, WeightGcd(p), mx, strict, (mx + 2) * (Len(p) + 1))
+  ELSE LET mx == MaxWeight(p)
+           g == WeightGcd(p)
+           levels == IF g > 0 THEN mx \div g ELSE mx          \* number of weight levels of one rotation
+       IN Scan(p, i, c, g, mx, strict, (levels + 2) * (Len(p) + 1))
 
 FindKey(p, k) ==              \* findServerByURL: first index with the same identity, 0 if none
   LET S == {i \in 1..Len(p) : p[i].k = k} IN
